@@ -638,7 +638,7 @@ func c06Merge(c *Ctx) {
 			}
 			break
 		}
-		if cc, isCall := inner.(TCall); isCall && cc.Fun != nil && cc.Fun.Name() == "copy" && len(cc.Args) == 0 {
+		if cc, isCall := inner.(TCall); isCall && cc.Fun != nil && (cc.Fun.Name() == "copy" || cc.Fun.Name() == "Clone") && len(cc.Args) == 0 {
 			rc, ok = cc, true
 		}
 	}
@@ -689,7 +689,7 @@ func c06Merge(c *Ctx) {
 			capEnv = st.Env
 		}
 	}
-	bp := c.NewSX().RunStmts(fl.Body.List, capEnv)
+	bp := v.primitiveWriteNorm(c.NewSX().RunStmts(fl.Body.List, capEnv))
 	good := len(ps) == 2 && len(bp) == 1 && bp[0].Why == "" && len(bp[0].Conds()) == 0 && len(bp[0].Effects()) == 1
 	if good {
 		s := bp[0].Effects()[0]
